@@ -179,7 +179,11 @@ func runC12Auth(in sx.V, c12AuthD time.Duration) (result sx.V, slow bool) {
 		return true
 	}
 	var outs []sx.V
+	deaf := false
 	for _, a := range acts {
+		if deaf {
+			break // nothing ends the calls on a deaf connection but their deadlines
+		}
 		switch a.Head() {
 		case "call":
 			outs = append(outs, call(a.List[1].I(), true))
@@ -249,6 +253,19 @@ func runC12Auth(in sx.V, c12AuthD time.Duration) (result sx.V, slow bool) {
 			}
 			cancel()
 			ln.hs.Store(0)
+		case "corrupt":
+			// a frame the client cannot parse: the stream is out of step, the client has to
+			// give the connection up (visible to the server as the end of the connection)
+			k := a.List[1].I()
+			fc, _ := srv.lns[k].current()
+			fc.sendBroken(a.List[2].I())
+			if c12Wait(3*time.Second, func() bool { return fc.closed.Load() }) {
+				outs = append(outs, sx.A("closed"))
+			} else {
+				outs = append(outs, sx.A("deaf"))
+				deaf = true
+			}
+			healthy[k] = false
 		case "recover":
 			res := sx.A("up")
 			for tries := 0; !allHealthy(); tries++ {
@@ -323,6 +340,10 @@ func c12GenAuth(r *prng.R, n int) sx.V {
 	}
 	if r.Chance(50) {
 		acts = append(acts, c12Op("silent"))
+	}
+	if r.Chance(40) {
+		acts = append(acts, c12Op("corrupt", uint64(r.Intn(nconn)), uint64(r.Intn(3))), c12Op("recover"))
+		calls(1 + r.Intn(2))
 	}
 	if !auth || n%4 == 1 {
 		// a keyless client ends in a black hole: the calls issued meanwhile
